@@ -766,6 +766,10 @@ def main():
     run.note("exhaustive_part", "all %d shape triples in 1..%d, each on all ordered grid factorisations of ncells and a graph, "
                                 "all (species, sample, cell) triples x species forms x cell forms; the input space itself "
                                 "(shapes, times, queries) is unbounded, hence exhaustive=false overall" % (len(sweep), hi))
+    # ---- history workloads: objects used, modified through their setters / re-used, used again (vf/history.py) ----
+    from vf.sandbox import run_extra as _run_extra
+    from vf.common import seed as _seed, tier as _tier
+    _run_extra(run, "vf.history:h_species_reorder", [{"seed": _seed(), "idx": _i} for _i in range(2400 if _tier() == "thorough" else 240)], cpu_budget=60, kind_prefix="history: ")
     return run.finish()
 
 
